@@ -1,4 +1,5 @@
 import PynguinModel.Lemmas.SubprocessAlign
+import PynguinModel.Lemmas.SubprocessConfig
 /-!
 # C31 — in-process and subprocess execution agree
 
@@ -18,6 +19,25 @@ Property theorems over the model `Model/SubprocessAlign.lean` of `SubprocessTest
                                      yields per test the in-process projection or (crash) the time-out
 * `C31_full` / `C31_full_cex`      — the statement without the picklability hypothesis is false: an
                                      unpicklable exception is dropped (known finding, replayed each run)
+
+Configuration transport (model `Model/SubprocessConfig.lean`: the `args` tuple of
+`_setup_subprocess_execution`, the positional parameters of `_execute_test_cases_in_subprocess`, the
+executor of `_fallback_on_failure`, the watchdog bound of `TestCaseExecutor.execute`):
+
+* `config_transport`               — the child builds its executor from exactly the parent's two time
+                                     settings (in this order), subject properties, module provider,
+                                     configuration snapshot and observer list, for the tests and
+                                     bindings it was sent
+* `child_time_bound_eq`            — hence the child's watchdog bound equals the parent's for EVERY size
+* `launches_configured`            — this holds for every child `execute_multiple` starts, the
+                                     one-by-one children of the crash fallback included
+* `poll_covers_children`           — the parent's `poll` time-out is at least the sum of the bounds the
+                                     child may legitimately use (equal for a single test)
+* `subprocess_agrees_configured`   — agreement (as `subprocess_agrees_partial`) where the child is no
+                                     longer "the same executor by assumption" but the executor built
+                                     from the shipped tuple; the time-out flag of a test that runs
+                                     `dur` ms is decided by the same bound on both sides
+* `swapped_time_settings_cex`    — non-vacuity: the two numbers are not interchangeable
 -/
 namespace PynguinModel.SubprocessAlign
 
@@ -459,5 +479,132 @@ example : AgreesOn (τ := Nat) (fun ts => if ts = [0, 1] ∨ ts = [1] then .recv
     (fun _ => [(0, "var_0")]) [0, 1] :=
   subprocess_agrees_partial _ _ _ _ _ (by intro t _; rfl) (by intro t _; simp [WF])
     (by intro t _; simp)
+
+
+/-! ## Configuration transport -/
+
+/-- `config_transport`: started on the tuple `_setup_subprocess_execution` builds, the child
+(`_execute_test_cases_in_subprocess`) constructs an executor with the parent's maximum time-out, the
+parent's time per statement (not the other way round), the same subject properties (tracer, state),
+module provider and configuration snapshot, and the parent's `_yield_remote_observers()` in order; it
+runs exactly the tests it was sent with exactly their bindings. -/
+theorem config_transport (g : Nat) (c : ExecConfig) (ts : List τ) (bs : List Bindings) :
+    ∃ s, childEntry (setupArgs g c ts bs) = some s ∧
+      s.settings = g ∧ s.cfg.maxTimeout = c.maxTimeout ∧ s.cfg.perStatement = c.perStatement ∧
+      s.cfg.props = c.props ∧ s.cfg.provider = c.provider ∧ s.cfg.yieldRemote = c.yieldRemote ∧
+      s.tests = ts ∧ s.binds = bs :=
+  ⟨_, childEntry_setupArgs g c ts bs, rfl, rfl, rfl, rfl, rfl, yieldRemote_fallback c, rfl, rfl⟩
+
+/-- `child_time_bound_eq`: for every test-case size the watchdog of the child waits exactly as long as
+the watchdog of the in-process executor with the parent's configuration. -/
+theorem child_time_bound_eq (g : Nat) (c : ExecConfig) (ts : List τ) (bs : List Bindings)
+    (s : ChildSetup τ) (h : childEntry (setupArgs g c ts bs) = some s) :
+    ∀ size, timeBound s.cfg size = timeBound c size := by
+  rw [childEntry_setupArgs] at h
+  injection h with h
+  subst h
+  intro size
+  rfl
+
+/-- `launches_configured`: every child process `execute_multiple` starts — the batch child and, when it
+does not answer, the children the fallback executor starts one test at a time — is configured like the
+parent, is given tests of the batch with their own bindings, and is waited for with the parent's
+`poll` rule. -/
+theorem launches_configured (g : Nat) (c : ExecConfig) (size : τ → Nat) (bind : τ → Bindings)
+    (answers : List τ → Bool) (tests : List τ) :
+    ∀ l ∈ launches g c size bind answers tests, ∃ s, childEntry l.args = some s ∧
+      s.settings = g ∧ s.cfg.props = c.props ∧ s.cfg.provider = c.provider ∧
+      s.cfg.yieldRemote = c.yieldRemote ∧ (∀ n, timeBound s.cfg n = timeBound c n) ∧
+      (∀ t ∈ s.tests, t ∈ tests) ∧ s.binds = s.tests.map bind ∧
+      l.poll = pollTimeout c (s.tests.map size) := by
+  have batch : ∀ ts : List τ, (∀ t ∈ ts, t ∈ tests) →
+      ∃ s, childEntry (launchOf g c size bind ts).args = some s ∧
+        s.settings = g ∧ s.cfg.props = c.props ∧ s.cfg.provider = c.provider ∧
+        s.cfg.yieldRemote = c.yieldRemote ∧ (∀ n, timeBound s.cfg n = timeBound c n) ∧
+        (∀ t ∈ s.tests, t ∈ tests) ∧ s.binds = s.tests.map bind ∧
+        (launchOf g c size bind ts).poll = pollTimeout c (s.tests.map size) :=
+    fun ts hts => ⟨_, childEntry_setupArgs g c ts (ts.map bind), rfl, rfl, rfl,
+      yieldRemote_fallback c, fun _ => rfl, hts, rfl, rfl⟩
+  have single : ∀ t ∈ tests,
+      ∃ s, childEntry (launchOf g (fallbackConfig c) size bind [t]).args = some s ∧
+        s.settings = g ∧ s.cfg.props = c.props ∧ s.cfg.provider = c.provider ∧
+        s.cfg.yieldRemote = c.yieldRemote ∧ (∀ n, timeBound s.cfg n = timeBound c n) ∧
+        (∀ t' ∈ s.tests, t' ∈ tests) ∧ s.binds = s.tests.map bind ∧
+        (launchOf g (fallbackConfig c) size bind [t]).poll = pollTimeout c (s.tests.map size) :=
+    fun t ht => ⟨_, childEntry_setupArgs g (fallbackConfig c) [t] ([t].map bind), rfl, rfl, rfl,
+      by rw [yieldRemote_fallback, yieldRemote_fallback], fun _ => rfl,
+      by intro t' ht'; simp at ht'; subst ht'; exact ht, rfl, rfl⟩
+  intro l hl
+  match tests, batch, single, hl with
+  | [], _, _, hl => simp [launches] at hl
+  | [t], batch, _, hl =>
+    simp only [launches, List.mem_singleton] at hl
+    subst hl
+    exact batch [t] (fun _ h => h)
+  | t0 :: t1 :: rest, batch, single, hl =>
+    simp only [launches] at hl
+    by_cases ha : answers (t0 :: t1 :: rest) = true
+    · simp only [ha, if_true, List.mem_singleton] at hl
+      subst hl
+      exact batch _ (fun _ h => h)
+    · simp only [ha] at hl
+      rcases List.mem_cons.mp hl with h | h
+      · subst h
+        exact batch _ (fun _ h => h)
+      · obtain ⟨t, ht, rfl⟩ := List.mem_map.mp h
+        exact single t ht
+
+/-- `poll_covers_children`: the time the parent waits for a batch is at least the sum of the watchdog
+bounds of its tests — a child whose tests all stay within their bounds is never cut off by the parent's
+arithmetic — and for a single test it is exactly that test's bound. -/
+theorem poll_covers_children (c : ExecConfig) (sizes : List Nat) :
+    (sizes.map (timeBound c)).sum ≤ pollTimeout c sizes ∧ ∀ n, pollTimeout c [n] = timeBound c n := by
+  refine ⟨?_, fun n => by simp [pollTimeout, timeBound]⟩
+  have h := sum_timeBound_le c sizes
+  simp only [pollTimeout]
+  omega
+
+/-- `subprocess_agrees_configured`: C31 on the model with the child built from the shipped tuple.  The
+in-process executor has configuration `c`; every child process runs `childMain` on the `args` of
+`_setup_subprocess_execution`.  For every crash pattern, every duration of the tests (`dur`, so also for
+tests that are slower than one per-statement slice but within their budget, and for tests over budget)
+and every way the result depends on subject properties, provider and observers (`body`), the subprocess
+executor returns test by test the projection of what `TestCaseExecutor.execute` returns in-process — in
+particular the same time-out flag — or the time-out result for the tests lost to crashes. -/
+theorem subprocess_agrees_configured (g : Nat) (c : ExecConfig) (size : τ → Nat) (dur : τ → Nat)
+    (body : Nat → Nat → List String → τ → Res) (probe : τ → Probes) (bind : τ → Bindings)
+    (crash : List τ → Crash) (tests : List τ)
+    (hclean : ∀ t ∈ tests, (probe t).clean = true)
+    (hwf : ∀ t ∈ tests, WF (execute c size dur body t).trace)
+    (hb : ∀ t ∈ tests, ((bind t).map (·.1)).Nodup) :
+    ∃ out, executeMultiple (remoteCfg g c size dur body probe bind crash) bind tests = .ok out ∧
+      out.map proj = tests.map (fun t =>
+        if lost crash tests t then proj timeoutRes else proj (execute c size dur body t)) := by
+  rw [remoteCfg_eq_remoteOf]
+  exact subprocess_agrees_partial crash (execute c size dur body) probe bind tests hclean hwf hb
+
+/-- Non-vacuity of the transport theorems: the two time settings are not interchangeable.  With a
+maximum of 30 s and 6 s per statement a five-statement test that runs 9 s finishes in-process, while an
+executor built from the two numbers in the other order gives it 6 s and reports a time-out. -/
+theorem swapped_time_settings_cex :
+    let c : ExecConfig := { maxTimeout := 30, perStatement := 6, props := 0, provider := 0, remoteObs := [], obs := [] }
+    let c' : ExecConfig := { c with maxTimeout := c.perStatement, perStatement := c.maxTimeout }
+    let body : Nat → Nat → List String → Nat → Res := fun _ _ _ _ => cexRes
+    timeBound c 5 = 30 ∧ timeBound c' 5 = 6 ∧
+    (execute c (fun _ => 5) (fun _ => 9000) body 0).timeout = false ∧
+    (execute c' (fun _ => 5) (fun _ => 9000) body 0).timeout = true := by
+  decide
+
+/-- Non-vacuity of `subprocess_agrees_configured`: two tests of five statements, 30 s / 6 s; the first runs
+9 s (longer than one slice, within its 30 s), the second 40 s (over budget): results agree, the first is
+no time-out, the second is one. -/
+example : (match executeMultiple (τ := Nat)
+      (remoteCfg 1 { maxTimeout := 30, perStatement := 6, props := 0, provider := 0, remoteObs := ["trace"], obs := [] }
+        (fun _ => 5) (fun t => if t = 0 then 9000 else 40000) (fun _ _ _ _ => cexRes)
+        (fun _ => { excs := .bad [], asserts := .bad [], aux := fun a => a }) (fun _ => [(0, "var_0")])
+        (fun _ => .none)) (fun _ => [(0, "var_0")]) [0, 1] with
+    | .ok out => out.map (·.timeout)
+    | .error _ => []) = [false, true] := by
+  decide
 
 end PynguinModel.SubprocessAlign
